@@ -120,7 +120,7 @@ def make_deck(ch, dims, skew, by_rpp, arr_mode, ranges=None):
     lat.base = base
     lat.ranges = rng_card
     if arr_mode == 'single':
-        uni = ch.choose('fill-univ', [2, 3, 1])
+        uni = ch.choose('fill-univ', [2, 1, 3])     # 1: every element is the lattice cell itself (its own material)
         lat.array = [uni] * nel
         lat.fill = uni
         lat.single = True
@@ -295,6 +295,8 @@ def scenarios(tier):
         Scn('arrays-2d-rot', b_arrays2d_preset({'filltr': 2, 'range0': 2}), 0, 0, 'all 3x2 arrays with a 90deg fill rotation'),
         Scn('arrays-1d', b_arrays1d, 1 if q else 2, 2, 'all fill arrays (free) x other choices deviation-bounded'),
         Scn('shapes', b_shapes, 2 if q else 3, 3, 'dimensions, skew, rpp, ranges, transformations, containers'),
+        Scn('own-universe', lambda ch: b_shapes(Preset(ch, {'array-mode': 1, 'fill-univ': 1})), 1 if q else 2, 2,
+            'FILL=<own universe> with --lattice: every element keeps the material of the lattice cell'),
     ]
 
 
